@@ -158,6 +158,13 @@ class C16(common.Spec):
             src, dest, events = ctx
             for i, (c, ev) in enumerate(zip(cases, events)):
                 if c['kind'] == 'pipe':
+                    if i % 2 == 0:
+                        # an earlier delivery through the same filter objects with other data must not
+                        # influence this one (filters work on the data of one delivery)
+                        try:
+                            ev.send(src, a='w1', b='w2', c='w3', value=9, previous=8, extra_key='w4')
+                        except Exception:
+                            pass
                     del log[:]
                     try:
                         ret = ev.send(src, **{k: dec(v) for k, v in c['data'].items()})
